@@ -689,7 +689,10 @@ pub fn drive_dec(spec: &DecSpec, mode: DecMode, source: &mut dyn OpSource, mut p
                 let last = eof && visible == len;
                 let proxy = state_proxy(&decs[0]);
                 // capacity: from the offer, or from the matching query
-                let mut cap = offer.cap.max(min);
+                let mut cap = if offer.submin { offer.cap } else { offer.cap.max(min) };
+                if offer.submin {
+                    run.probe("sub_minimum_safe_sink");
+                }
                 let mut by_query = false;
                 if offer.query {
                     if let Some(q) = query_for(&decs[0], spec.form16, spec.repl, pending.len()) {
